@@ -2,7 +2,7 @@ CONSTANTS
   Version = 4
   N = 2
   ManualAcks = FALSE
-  Fix = {"pubcomp_collision", "clean_collision", "rel_id_reuse", "clean_order", "clean_start_rotation", "replay_window", "pkid_wrap"}
+  Fix = {"pubcomp_collision", "clean_collision", "rel_id_reuse", "clean_order", "clean_start_rotation", "replay_window", "pkid_wrap", "ack_failure"}
   GateFix = TRUE
   MaxMsgs = 6
   ChanCap = 3
